@@ -42,11 +42,11 @@ var nearMissList = map[string][]string{"superlist": {"other", "not-chihaya.examp
 func init() { gens["C15"] = &Gen{Run: runC15, Replay: nil} }
 
 type jwkServer struct {
-	mu     sync.Mutex
-	keys   map[string]*rsa.PrivateKey // published kid -> key
-	srv    *httptest.Server
-	broken string // "" | "garbage" | "500" | "badkey" | "503json" | "404json": what the endpoint answers instead of the key set
-	slow   time.Duration // answer only after this long (or when the client has gone away)
+	mu       sync.Mutex
+	keys     map[string]*rsa.PrivateKey // published kid -> key
+	srv      *httptest.Server
+	broken   string        // "" | "garbage" | "500" | "badkey" | "503json" | "404json": what the endpoint answers instead of the key set
+	slow     time.Duration // answer only after this long (or when the client has gone away)
 	inflight int32
 }
 
